@@ -338,6 +338,8 @@ class Oracle:
             return self.value(rng, t[1], depth, top)
         if rng.random() < 0.08:
             return None
+        if not top and rng.random() < self.adv * 0.4:
+            return ValueError(USER_PREFIX + "item-%d" % rng.randrange(100))      # an exception object as a list element
         if k == "list":
             if rng.random() < self.adv:
                 return rng.choice([1, "x", {"a": 1}, Opaque("tuple"), 0, "", False, Opaque("set"), {}])
@@ -439,6 +441,25 @@ class Oracle:
                 return ("ret", 7)
             if kind == "bad_typename":
                 return ("ret", {"_typename": "Nope", "__tr": "Nope"})
+            if kind == "exc_item":
+                # the value the resolver would return, with an exception object as one list element
+                v = Oracle(self.s, self.seed, 0.0, 0.0).value(rng, ftype, 0)
+                exc = ValueError(msg)
+
+                def plant(x, t):
+                    while t[0] == "nonnull":
+                        t = t[1]
+                    if t[0] == "list" and isinstance(x, list):
+                        if x and t[1][0] in ("list",) or (x and t[1][0] == "nonnull" and t[1][1][0] == "list"):
+                            i = rng.randrange(len(x))
+                            r = plant(x[i], t[1])
+                            if r is not None:
+                                return x[:i] + [r] + x[i + 1:]
+                        i = rng.randrange(len(x) + 1)
+                        return x[:i] + [exc] + x[i:]
+                    return None
+                planted = plant(v, ftype)
+                return ("ret", planted if planted is not None else exc)
         r = rng.random()
         if r < self.fail:
             kind = rng.choice(["raise", "raise_gql", "raise_gql_ext", "value"])
